@@ -493,7 +493,8 @@ fn typed_params(extra: &str) -> Result<Result<ParsedParameters, String>, String>
         let keys: Vec<&str> = extra.split_whitespace().filter_map(|t| t.split('=').next()).collect();
         let req: Vec<&str> = REQUIRED.split(' ').filter(|kv| !keys.contains(&kv.split('=').next().unwrap())).collect();
         // (a value ending in ',' would glue to the next token by the documented normalisation: put it last)
-        let (a, b) = req.split_at(if extra.ends_with(',') { req.len() } else { req.len() / 2 });
+        // (likewise an empty value, `key=`: by the documented rule "= " -> "=" it would swallow the next token)
+        let (a, b) = req.split_at(if extra.ends_with(',') || extra.ends_with('=') { req.len() } else { req.len() / 2 });
         let op = ctx.op(&format!("typed {} {extra} {}", a.join(" "), b.join(" "))).map_err(|e| e.to_string())?;
         ctx.params(op, 0).map_err(|e| e.to_string())
     })
@@ -694,12 +695,13 @@ fn typing(rep: &Report) {
     }
 
     // series: comma separated reals
-    let series = ["1,2,3", "1", "1.5,-2.5e1", "1:30,2:30S", "1,,2", "1,2,", ",1", "a,b", "1,b", "1;2", "1,2,3,4,5,6,7,8,9,10", "0:30,0:0:36", "ø,1", "1,ø"];
+    let series = ["", "1,2,3", "1", "1.5,-2.5e1", "1:30,2:30S", "1,,2", "1,2,", ",1", "a,b", "1,b", "1;2", "1,2,3,4,5,6,7,8,9,10", "0:30,0:0:36", "ø,1", "1,ø"];
     for sp in series {
         for key in ["s", "sr"] {
             rep.eval(1);
             let r = typed_params(&format!("{key}={sp}"));
             let parts: Vec<Option<Option<f64>>> = sp.split(',').map(ref_real).collect();
+            // (`s=` as the last token of the step: a series without any element is no series)
             if parts.iter().any(|p| p.is_none()) {
                 judge_err("series", key, sp, &r);
             } else if parts.iter().all(|p| matches!(p, Some(Some(_)))) {
